@@ -15,7 +15,7 @@ RULE = ("cases = generated signature x kind {function, method (first argument pa
         "Pair differs only in ignored positions => same key and the second real call is not evaluated. Otherwise => keys differ whenever the same "
         "pair, with its ignored positions equalised, gets different keys with ignore=() (same keymap). non-trivial = the spec mixes >= 2 kinds of "
         "selector and the signature has keyword-only parameters or **kw; distinct = (signature shape, spec, keymap, path, which positions differ)")
-ASSUMPTIONS = ['for methods with the instance ignored, index selectors are not mixed in (the code shifts them; the statement does not say which way)',
+ASSUMPTIONS = ['for methods, the instance is selected either by name (then no index selectors are mixed in: the code shifts them, the statement does not say which way) or by index 0 in an index-only specification',
                'the number of extra positionals / the set of extra keyword names counts as non-ignored unless * / ** is listed']
 
 N = {'quick': 2500, 'thorough': 20000}
@@ -40,6 +40,10 @@ def ignore_specs(draw, sig, kind):
     if kind != 'method' and nn and draw(st.integers(0, 7)) == 0:
         # the bare (non-sequence) spellings: a single index or a single name
         return {'items': [draw(st.sampled_from([0, 0, nn - 1, H.sig_names(sig)[0]]))], 'style': 'bare'}
+    if kind == 'method' and draw(st.integers(0, 3)) == 0:
+        # the instance (and other parameters) selected by positional INDEX only: index 0 is the instance
+        items = draw(st.lists(st.integers(0, nn + 2), min_size=1, max_size=3, unique=True))
+        return {'items': items, 'style': 'bare' if (len(items) == 1 and draw(st.booleans())) else 'tuple'}
     if kind == 'method':
         items = draw(st.lists(st.sampled_from([x for x in pool if not isinstance(x, int)] + ['self', 'self']), min_size=1, max_size=4, unique=True))
     else:
